@@ -4,7 +4,8 @@ import Parsley.Spec.Peg
 /-
   Line protocol for C18.
 
-  case   : `<tag> <expr> <hexbuf> <pos>`
+  case   : `<tag> <expr> <hexbuf> <pos>`   or, several steps on ONE parser object (reuse):
+           `<tag> <expr> <hexbuf> <pos> <hexbuf> <pos> …`  (outputs of the steps joined by ` ; `)
            expr (prefix, no blanks):  `.`XY seq   `|`XY alt   `*`X star   `!`X not
                                        `U` any-ascii   `=hh` byte == hh   `~hh` byte != hh   `[llhh` ll <= byte <= hh
                                        `^`G  raw operand with guard G (consumes the byte even when the guard rejects it)
@@ -84,6 +85,25 @@ def readCase (line : String) : Option Case :=
     | _, _, _ => none
   | _ => none
 
+/-- steps of a reuse case: `<hexbuf> <pos>` pairs -/
+def readSteps : List String → Option (List (Bytes × Nat))
+  | [] => some []
+  | hex :: pos :: rest =>
+    match bytesOfHex hex, pos.toNat?, readSteps rest with
+    | some s, some i, some l => if i ≤ s.length then some ((s, i) :: l) else none
+    | _, _, _ => none
+  | [_] => none
+
+/-- `<tag> <expr> (<hexbuf> <pos>)+` : one parser object applied to every step in turn.
+    A single-step line is an ordinary case. -/
+def readSeq (line : String) : Option (E × List (Bytes × Nat)) :=
+  match words line with
+  | _ :: ex :: rest =>
+    match readE ex, readSteps rest with
+    | some e, some (st :: l) => some (e, st :: l)
+    | _, _ => none
+  | _ => none
+
 /-! ### value trees -/
 
 partial def showT : T → String
@@ -161,20 +181,17 @@ def readOk (out : String) : Option (T × Nat) :=
 /-! ### model, oracle -/
 
 def model (line : String) : String :=
-  match readCase line with
+  match readSeq line with
   | none => "bad-case"
-  | some c =>
-    if !StarBodiesConsume c.e then "skip" else
-    showOut (run c.e (fuelFor c.s c.i) c.s c.i)
+  | some (e, steps) =>
+    if !StarBodiesConsume e then "skip" else
+    -- the combinators are stateless: a reuse sequence is the map of the single applications
+    " ; ".intercalate (steps.map fun (s, i) => showOut (run e (fuelFor s i) s i))
 
 /-- The oracle: the textbook outcome of `e` on the remaining input (computed by
     `pegEval`, no cursor, no spans), compared with what the implementation
     reported; spans are checked with the nesting discipline `T.nest`. -/
-def judge (case impl : String) : String :=
-  match readCase case with
-  | none => "skip"
-  | some c =>
-    if !StarBodiesConsume c.e then "skip" else
+def judgeStep (c : Case) (impl : String) : String :=
     let impl := impl.trimAscii.toString
     match pegEval c.e (c.s.drop c.i) with
     | none => "bad oracle-undefined the relation assigns no outcome although star bodies consume"
@@ -202,6 +219,37 @@ def judge (case impl : String) : String :=
           else if !t.nest then "bad span-nesting child spans do not tile the parent span in order"
           else "ok"
       | _ => s!"bad malformed-output {impl}"
+
+/-- first non-`ok` verdict of the steps of a reuse case.  The denotation of an expression does
+    not depend on what the parser object was applied to before: every step is judged on its own
+    against `pegEval`.  A wrong step after the first one is reported with the class
+    `state-carried-across-applications` (the first step is a fresh object: ordinary classes). -/
+def judgeSteps (e : E) : Nat → List (Bytes × Nat) → List String → String
+  | _, [], [] => "ok"
+  | k, (s, i) :: steps, o :: outs =>
+    match judgeStep ⟨e, s, i⟩ o with
+    | "ok" => judgeSteps e (k + 1) steps outs
+    | v =>
+      if k == 0 then v
+      else
+        -- the same expression on the same input has exactly one denotation; an application that
+        -- is wrong only after earlier applications of the same object means the object carried
+        -- state over from them
+        s!"bad state-carried-across-applications step={k} buf={hexOfBytes s} pos={i}: {(v.drop 4).toString}"
+  | _, _, _ => "bad malformed-output number of step outputs differs from the number of steps"
+
+/-- The oracle: the textbook outcome of `e` on the remaining input (computed by
+    `pegEval`, no cursor, no spans), compared with what the implementation
+    reported; spans are checked with the nesting discipline `T.nest`.
+    Reuse cases: every step judged independently (the semantics has no state). -/
+def judge (case impl : String) : String :=
+  match readSeq case with
+  | none => "skip"
+  | some (e, steps) =>
+    if !StarBodiesConsume e then "skip" else
+    match steps with
+    | [(s, i)] => judgeStep ⟨e, s, i⟩ impl
+    | _ => judgeSteps e 0 steps ((impl.splitOn " ; ").map fun o => o.trimAscii.toString)
 
 /-! ### generators -/
 
@@ -287,8 +335,108 @@ def randBytes (r : Rng) (maxLen : Nat) (rich : Bool) : Bytes × Rng := Id.run do
 def emitCase (emit : String → IO Unit) (tag : String) (e : E) (s : Bytes) (i : Nat) : IO Unit :=
   emit s!"{tag} {showE e} {hexOfBytes s} {i}"
 
+/-! ### overlapping alternatives, one parser object applied repeatedly -/
+
+def ca : E := .chr (.eq 97)
+def cb : E := .chr (.eq 98)
+def cc : E := .chr (.eq 99)
+
+/-- consuming operands that overlap pairwise in every way: identical, same first byte, one a
+    prefix of the other, one matching whatever the other matches (`U`), a loop / a lookahead
+    behind a shared first byte -/
+def ovOperands : List E :=
+  [ca, cb, .chr .any, .seq ca cb, .seq ca ca, .seq cb ca, .seq ca (.star cb), .seq ca (.not cb)]
+
+/-- nullable operands (they always / sometimes succeed without consuming) -/
+def ovNullable : List E := [.star ca, .not cb, .star (.seq ca cb)]
+
+/-- every ordered pair of consuming operands as an alternative: 64 (8 of them identical pairs) -/
+def ovAlts : List E := ovOperands.flatMap fun x => ovOperands.map fun y => E.alt x y
+
+/-- alternatives with one nullable side: 48 -/
+def ovAltsNullable : List E :=
+  ovOperands.flatMap fun x => ovNullable.flatMap fun n => [E.alt x n, E.alt n x]
+
+/-- alternatives nested in alternatives (both associations) over a small operand set: 128 -/
+def ovAltsNested : List E :=
+  let o : List E := [ca, cb, .seq ca cb, .seq ca ca]
+  o.flatMap fun x => o.flatMap fun y => o.flatMap fun z => [E.alt (.alt x y) z, E.alt x (.alt y z)]
+
+def ab : List UInt8 := [97, 98]
+
+def randPick (r : Rng) (a : Array E) : E × Rng :=
+  let (k, r) := r.nat a.size
+  (a[k]!, r)
+
+/-- a random grammar of the family: an overlapping alternative under a star, possibly inside a
+    sequence and a second star -/
+def randOv (r : Rng) (alts : Array E) : E × Rng :=
+  let (alt, r) := randPick r alts
+  let (k, r) := r.nat 6
+  let body := if consumes alt then alt else .seq alt cc
+  match k with
+  | 0 => (alt, r)
+  | 1 => (.star body, r)
+  | 2 => (.star (.seq alt cc), r)
+  | 3 => (.star (.seq cc alt), r)
+  | 4 => (.star (.seq (.star body) cc), r)
+  | _ => (.seq (.star body) alt, r)
+
+def emitSteps (emit : String → IO Unit) (tag : String) (e : E) (steps : List (Bytes × Nat)) : IO Unit :=
+  emit (s!"{tag} {showE e}" ++ String.join (steps.map fun (s, i) => s!" {hexOfBytes s} {i}"))
+
+/-- the overlap / reuse families (see `CFG["rule"]` of C18) -/
+def genOverlap (seed n : Nat) (thorough : Bool) (emit : String → IO Unit) : IO Unit := do
+  -- (a) one Alternate object applied in every iteration of a Star
+  let sAB := stringsUpTo ab (if thorough then 7 else 5)
+  let sABC := stringsUpTo abc (if thorough then 6 else 4)
+  for alt in ovAlts do
+    -- (x|y)*
+    for s in sAB do emitCase emit "o1" (.star alt) s 0
+    -- ((x|y) c)*   (c (x|y))*   ((x|y)* c)*  : sequence of alternate / nested stars
+    for s in sABC do
+      emitCase emit "o2" (.star (.seq alt cc)) s 0
+      emitCase emit "o3" (.star (.seq cc alt)) s 0
+      emitCase emit "o4" (.star (.seq (.star alt) cc)) s 0
+  for alt in ovAltsNullable do
+    for s in sABC do emitCase emit "o5" (.star (.seq alt cc)) s 0
+  for alt in ovAltsNested do
+    for s in sAB do emitCase emit "o6" (.star alt) s 0
+  -- (b) reuse: the same parser object applied to several inputs / at several cursors in a row
+  let alts1 := ovAlts ++ ovAltsNullable
+  let short := stringsUpTo ab 2
+  for e in alts1 do
+    for s1 in short do
+      for s2 in short do
+        emitSteps emit "r2" e [(s1, 0), (s2, 0)]
+        if thorough then
+          for s3 in short do emitSteps emit "r3" e [(s1, 0), (s2, 0), (s3, 0)]
+  -- every cursor of one buffer, ascending and descending
+  let bufs := (stringsUpTo ab (if thorough then 5 else 4)).filter fun s => s.length ≥ 3
+  for e in alts1 ++ ovAlts.map E.star do
+    for s in bufs do
+      let cur := List.range (s.length + 1)
+      emitSteps emit "rc" e (cur.map fun i => (s, i))
+      emitSteps emit "rd" e (cur.reverse.map fun i => (s, i))
+  -- random: a grammar of the family / any random expression, 2-4 random steps
+  let mut r := Rng.mk' (seed + 18)
+  let altsA := (ovAlts ++ ovAltsNullable ++ ovAltsNested).toArray
+  for j in List.range (min (n / 2) 200000) do
+    let (e, r1) := if j % 4 == 3 then randE 3 r false else randOv r altsA
+    let (k, r2) := r1.nat 3
+    r := r2
+    let mut steps : List (Bytes × Nat) := []
+    for _ in List.range (k + 2) do
+      let (s, r3) := randBytes r 5 false
+      let (i, r4) := r3.nat (s.length + 1)
+      let (z, r5) := r4.nat 3
+      r := r5
+      steps := (s, if z == 0 then i else 0) :: steps
+    emitSteps emit (if j % 4 == 3 then "rx" else "rr2") e steps
+
 def gen (seed n : Nat) (tier : String) (emit : String → IO Unit) : IO Unit := do
   let thorough := tier == "thorough"
+  genOverlap seed n thorough emit
   -- (1) exhaustive: every expression of depth ≤ d over the three guarded byte parsers
   --     × every string of length ≤ L over {a,b,c}
   let d := if thorough then 2 else 1
@@ -352,10 +500,14 @@ def nodes : E → Nat
   | .seq a b | .alt a b => nodes a + nodes b + 1
   | .star a | .not a => nodes a + 1
 
-/-- non-trivial: at least two combinators and at least two bytes of remaining input -/
+/-- non-trivial: at least two combinators and at least two bytes of remaining input;
+    a reuse case: at least one combinator and at least two steps with input remaining -/
 def nontrivial (line : String) : Bool :=
-  match readCase line with
-  | some c => decide (nodes c.e ≥ 2) && decide (c.s.length - c.i ≥ 2) && StarBodiesConsume c.e
+  match readSeq line with
+  | some (e, [(s, i)]) => decide (nodes e ≥ 2) && decide (s.length - i ≥ 2) && StarBodiesConsume e
+  | some (e, steps) =>
+    decide (nodes e ≥ 1) && decide ((steps.filter fun (s, i) => s.length - i ≥ 1).length ≥ 2)
+      && StarBodiesConsume e
   | none => false
 
 def driver : PropDriver := { gen, model, judge, nontrivial }
